@@ -13,7 +13,7 @@
 EXTENDS Naturals, Sequences, FiniteSets, TLC, VerifIO, SequencesExt
 
 CONSTANTS MaxEntries,  \* entries per directory
-          Pres,        \* name prefixes used:   subset of {"a", "_a", "gop_autogen", "main"}
+          Pres,        \* name prefixes used:   subset of AllPres
           Exts,        \* extension parts used: subset of AllExts
           CKs,         \* class-kind functions used: subset of AllCKs
           Modes,       \* subset of {"plain", "goasxgo"}
@@ -22,12 +22,16 @@ CONSTANTS MaxEntries,  \* entries per directory
 AllExts == {".xgo", ".gop", ".go", ".gox", ".spx", ".gmx", ".gsh", ".txt", "_yap.gox"}
 AllCKs  == {"default", "none", "gox", "yap", "txtproj", "txtwork", "projnotok"}
 ASSUME Exts \subseteq AllExts /\ CKs \subseteq AllCKs /\ Modes \subseteq {"plain", "goasxgo"}
-ASSUME Pres \subseteq {"a", "_a", "gop_autogen", "main"}
+\* every form of a generated name: the bare prefix, a suffix after "_" (tool.GenGoFiles writes
+\* gop_autogen_<file>.go), a suffix glued to the prefix, a _test suffix
+AutogenPres == {"gop_autogen", "gop_autogen_x", "gop_autogenx", "gop_autogen_x_test"}
+AllPres == {"a", "_a", "main"} \cup AutogenPres
+ASSUME Pres \subseteq AllPres
 
 \* path.Ext of the rendered name
 Ext(e) == IF e.ext = "_yap.gox" THEN ".gox" ELSE e.ext
 Underscore(e) == e.pre = "_a"                 \* strings.HasPrefix(fname, "_")
-Autogen(e)    == e.pre = "gop_autogen"        \* strings.HasPrefix(fname, "gop_autogen")
+Autogen(e)    == e.pre \in AutogenPres       \* strings.HasPrefix(fname, "gop_autogen")
 IsDir(e)      == e.kind = "dir"
 \* package name the parser reports: explicit clause, or "main" when there is none
 PkgOf(e)      == IF e.kind = "impl" THEN "main" ELSE e.kind
